@@ -7,6 +7,8 @@ import (
 	"fmt"
 	"os"
 	"path/filepath"
+	"runtime"
+	"strconv"
 	"strings"
 	"sync"
 	"time"
@@ -88,6 +90,7 @@ type item struct {
 	Trans string `json:"tr,omitempty"` // E: transition
 	Step  string `json:"sp,omitempty"` // E: transition step
 	Err   bool   `json:"er,omitempty"` // E: error field non-empty
+	Th    int    `json:"th"`           // E: index of the registered caller goroutine that wrote it (-1 unknown)
 	EnvId string `json:"-"`
 }
 
@@ -102,7 +105,36 @@ type world struct {
 	// scripted failures of transition bodies (environment event names) for the current request
 	failBody map[string]bool
 	failMode simcore.CmdOutcome
+	noSample bool           // do not read Sm.Current() (a forced state is pending behind a running event)
+	threads  map[uint64]int // goroutine id -> caller index
+	cmdGate  chan struct{}  // when set, the next task command blocks on it (after being recorded)
+	cmdSeen  chan struct{}
 }
+
+func goid() uint64 {
+	var buf [64]byte
+	n := runtime.Stack(buf[:], false)
+	f := strings.Fields(string(buf[:n]))
+	if len(f) < 2 {
+		return 0
+	}
+	id, _ := strconv.ParseUint(f[1], 10, 64)
+	return id
+}
+
+func (w *world) regThread(idx int) {
+	w.mu.Lock()
+	w.threads[goid()] = idx
+	w.mu.Unlock()
+}
+
+func (w *world) clearThreads() {
+	w.mu.Lock()
+	w.threads = map[uint64]int{}
+	w.mu.Unlock()
+}
+
+func (w *world) setNoSample(b bool) { w.mu.Lock(); w.noSample = b; w.mu.Unlock() }
 
 func (w *world) setCur(env *environment.Environment) {
 	w.mu.Lock()
@@ -124,7 +156,15 @@ func (w *world) add(it item) {
 	if it.EnvId != "" && it.EnvId != w.curId {
 		return
 	}
-	it.St = w.cur.Sm.Current()
+	it.Th = -1
+	if it.Kind == "E" {
+		if idx, ok := w.threads[goid()]; ok {
+			it.Th = idx
+		}
+	}
+	if !w.noSample {
+		it.St = w.cur.Sm.Current()
+	}
 	w.items = append(w.items, it)
 }
 
@@ -171,7 +211,7 @@ func buildDir() string {
 }
 
 func newWorld(tag string) (*world, error) {
-	w := &world{failBody: map[string]bool{}, failMode: simcore.CmdErrSource}
+	w := &world{failBody: map[string]bool{}, failMode: simcore.CmdErrSource, threads: map[uint64]int{}}
 	w.rec = vplugin.NewRecorder()
 	w.rec.OnStart = func(id string, vars map[string]string) {
 		w.add(item{Kind: "H", Name: id, EnvId: vars["environment_id"]})
@@ -196,6 +236,14 @@ func newWorld(tag string) (*world, error) {
 			envEv = event
 		}
 		w.add(item{Kind: "B", Name: envEv})
+		w.mu.Lock()
+		g, seen := w.cmdGate, w.cmdSeen
+		w.cmdGate, w.cmdSeen = nil, nil
+		w.mu.Unlock()
+		if g != nil {
+			close(seen)
+			<-g
+		}
 		if w.bodyFails(envEv) {
 			return w.failMode
 		}
